@@ -133,7 +133,7 @@ impl Interval {
             return;
         }
         if let (Ok(start), Ok(end)) = (self.start.try_to_i64(), self.end.try_to_i64()) {
-            let diff = (end - start) as u64 % self.stride;
+            let diff = end.wrapping_sub(start) as u64 % self.stride;
             let diff = Bitvector::from_u64(diff).into_resize_unsigned(self.end.bytesize());
             self.end.checked_sub_assign(&diff).unwrap();
             if self.start == self.end {
@@ -155,7 +155,7 @@ impl Interval {
             return;
         }
         if let (Ok(start), Ok(end)) = (self.start.try_to_i64(), self.end.try_to_i64()) {
-            let diff = (end - start) as u64 % self.stride;
+            let diff = end.wrapping_sub(start) as u64 % self.stride;
             let diff = Bitvector::from_u64(diff).into_resize_unsigned(self.end.bytesize());
             self.start.checked_add_assign(&diff).unwrap();
             if self.start == self.end {
